@@ -4,6 +4,17 @@
 K = {"name": "TestKnown", "enum": True}
 
 CHECKS = {
+    "C17": {
+        "level": "fault_enumeration",
+        "tests": [
+            {"name": "TestC17Faults", "checks": [600, 3000], "shards": [4, 16], "floor": 0.6},
+            {"name": "TestC17Names", "checks": [2000, 10000], "shards": [2, 16]},
+            {"name": "TestC17Overrides", "enum": True},
+            {"name": "TestC17Loaders", "checks": [1000, 5000], "shards": [1, 8]},
+            K,
+        ],
+        "assumptions": ["faults are injected through user callbacks (function, filter, test) and template lookups; undefined variables/attributes and `ignore missing` on a missing template are documented tolerances, not faults"],
+    },
     "C12": {
         "level": "exploration",
         "tests": [
